@@ -112,6 +112,10 @@ func (ex *Exec) aes(st *State, enc bool, key []*Term, in []*Term) Value {
 	if !enc {
 		f, g = dn, en
 	}
+	// inverse law applied syntactically: f(k, g(k, x')) = x'
+	if x.Op == OApp && x.Name == g && x.Args[0] == k {
+		return ex.splitBytes(x.Args[1])
+	}
 	y := ex.ufApp(st, f, BV(128), k, x)
 	if !ex.aesApps[y] {
 		ex.aesApps[y] = true
@@ -223,6 +227,42 @@ func init() {
 			}
 			ex.sliceWrite(st, s, 0, vals)
 			return nil
+		},
+		// base64 contract stub: Encode yields fresh characters remembered together with the bytes;
+		// Lookup returns the bytes for exactly such a string.
+		"verif:verifB64Encode": func(ex *Exec, st *State, fn *ssa.Function, args []Value) Value {
+			src := ex.bytesOfSlice(st, args[0])
+			n := (len(src) + 2) / 3 * 4
+			chars := make([]*Term, n)
+			for i := range chars {
+				ex.b64seq++
+				chars[i] = ex.ctx.Var(fmt.Sprintf("b64c%d", ex.b64seq), BV(8))
+			}
+			st.b64 = append(st.b64, b64Pair{chars: chars, bytes: src})
+			return StringV{B: chars}
+		},
+		"verif:verifB64Lookup": func(ex *Exec, st *State, fn *ssa.Function, args []Value) Value {
+			s := args[0].(StringV)
+			for _, p := range st.b64 {
+				if len(p.chars) != len(s.B) {
+					continue
+				}
+				same := true
+				for i := range s.B {
+					if s.B[i] != p.chars[i] {
+						same = false
+						break
+					}
+				}
+				if same {
+					el := make([]Value, len(p.bytes))
+					for i, b := range p.bytes {
+						el[i] = b
+					}
+					return TupleV{ex.newSlice(st, el, len(el), ex.ctx.BVConst(8, 0)), ex.ctx.True}
+				}
+			}
+			return TupleV{SliceV{}, ex.ctx.False}
 		},
 		"verif:verifMapDesc": func(ex *Exec, st *State, fn *ssa.Function, args []Value) Value {
 			return ex.ctx.Bool(ex.cfg.MapDesc)
